@@ -652,16 +652,22 @@ def rand_spec_equal_rates(rng):
             have.add((i, j))
             have.add((j, i))
     conns = []
+    peers_same_tick = rng.random() < 0.6
     for (i, j) in sorted(have):
-        conns.append(dict(src=f"n{i}", dst=f"n{j}", blocking=False, skip=bool(i > j), jitter="LATEST", window=rng.choice([1, 1, 2]),
-                          comm=dict(kind="det", loc=round(rng.choice([0.85, 1.0, 1.15]) * per, 4), scale=0.0)))
+        if peers_same_tick and j != sup_i:
+            # peers read each other through *skipped* connections with a short delay: all peers tick at k/rate, the message of tick k
+            # is consumed at tick k+1, so producer and consumer steps share a generation and the buffers have size 1
+            conns.append(dict(src=f"n{i}", dst=f"n{j}", blocking=False, skip=True, jitter="LATEST", window=1, comm=dict(kind="det", loc=round(0.3 * per, 4), scale=0.0)))
+        else:
+            conns.append(dict(src=f"n{i}", dst=f"n{j}", blocking=False, skip=bool(i > j), jitter="LATEST", window=rng.choice([1, 1, 2]),
+                              comm=dict(kind="det", loc=round(rng.choice([0.85, 1.0, 1.15]) * per, 4) if not peers_same_tick else round(0.3 * per, 4), scale=0.0)))
     return dict(nodes=nodes, conns=conns, supervisor=f"n{sup_i}", seed=rng.randrange(1 << 30))
 
 
 def rand_spec_high_ratio(rng):
     """a fast node against a slow supervisor: more than 10 slots of one kind per partition"""
-    sup_rate = rng.choice([2, 3])
-    fast = rng.choice([24, 30, 36])
+    sup_rate = 2
+    fast = rng.choice([30, 36])  # 15-18 slots of the fast kind per partition: slot names s<kind>_10.. sort before s<kind>_2
     nodes = [dict(name="n0", rate=fast, comp=dict(kind="det", loc=round(0.2 / fast, 4), scale=0.0), advance=False, scheduling="FREQUENCY"),
              dict(name="n1", rate=rng.choice([6, 12]), comp=dict(kind="det", loc=0.01, scale=0.0), advance=False, scheduling="FREQUENCY"),
              dict(name="n2", rate=sup_rate, comp=dict(kind="det", loc=0.01, scale=0.0), advance=False, scheduling="FREQUENCY")]
